@@ -123,4 +123,16 @@ PROPS = {
         "assumptions": ["ADT field order = program order"],
         "design_ref": "DESIGN.md §3.17, §4 C16",
     },
+    "C05": {
+        "rules": ["FIELDS", "ZIPLEN", "REPLSCOPE", "CALLPRED", "HOLESIB", "EXH", "TRAV@C05"],
+        "thorough": [],
+        "technique": "static analysis: per-constructor field coverage of both unification operands, length-guard rule for zips over IR lists, edit-scope and sibling-agreement rules, call-site assertion-discharge rule",
+        "level_text": "Structural clauses of replace(): every constructor case of unification reads every semantic field of both operands; no two IR child lists are zipped without an "
+        "established length relation; the statements replaced are exactly the statements unified; callee renamed before and aliasing checked after; hole-binding siblings reject a "
+        "second inequivalent binding; a primitive that mints a call must discharge the callee's assertions. Does not decide the integer-linear solve or the window case split.",
+        "level_note": "Trusted: ADT text; ignore-list of annotation fields (srcinfo, expression types, loop_mode, mem) in rules/fields.py.",
+        "explanation": "UNIFYFIELDS on unify_stmts/unify_e; ZIPLEN on Unification.unify*/is_exact_e; REPLSCOPE on DoReplace; CALLPRED on DoReplace and DoInsertNoopCall (known findings D16); HOLESIB; EXH(unify_e); TRAV(_Find_Mod_Div_Symbols).",
+        "assumptions": [],
+        "design_ref": "DESIGN.md §3.5, §3.16, §4 C05",
+    },
 }
